@@ -17,6 +17,8 @@ import (
 	"errors"
 
 	"github.com/spiffe/go-spiffe/v2/svid/x509svid"
+
+	"github.com/dapr/kit/verifhook"
 )
 
 // svidSource is an implementation of the Go spiffe x509svid Source interface.
@@ -29,6 +31,7 @@ type svidSource struct {
 func (s *svidSource) GetX509SVID() (*x509svid.SVID, error) {
 	s.spiffe.lock.RLock()
 	defer s.spiffe.lock.RUnlock()
+	verifhook.Point("spiffe.svid.afterRLock")
 
 	<-s.spiffe.readyCh
 
